@@ -13,6 +13,7 @@ type c07World struct {
 	seenSids []string
 	seenUUID []string
 	gauge0   int64
+	workers0 int
 }
 
 // invariant: at a quiescent moment the discoverable sessions are exactly the non-empty ones, every joined
@@ -51,6 +52,9 @@ func (c *c07World) invariant(tag string) {
 		verifnd.Assert(ok == nonEmpty, "C07.discoverable_iff_non_empty", tag)
 	}
 	verifnd.Assert(verifnd.Gauge("session_count")-c.gauge0 == int64(live), "C07.gauge_equals_live_sessions", tag)
+	// the frame worker of an ended session stops: one worker per live session
+	verifnd.Quiesce()
+	verifnd.Assert(verifnd.GoroutinesIn("StartDispatchFrames")-c.workers0 == live, "C07.frame_workers_equal_live_sessions", tag)
 }
 
 // VerifC07Seq: a bounded arbitrary history of joins (new session, existing session of another connection,
@@ -58,6 +62,7 @@ func (c *c07World) invariant(tag string) {
 func VerifC07Seq() {
 	c := &c07World{w: newVWorld(0)}
 	c.gauge0 = verifnd.Gauge("session_count")
+	c.workers0 = verifnd.GoroutinesIn("StartDispatchFrames")
 	for i := 0; i < 3; i++ {
 		c.conns = append(c.conns, c.w.newConn())
 		c.joined = append(c.joined, false)
@@ -140,6 +145,7 @@ func VerifC07Seq() {
 func VerifC07Par() {
 	c := &c07World{w: newVWorld(0)}
 	c.gauge0 = verifnd.Gauge("session_count")
+	c.workers0 = verifnd.GoroutinesIn("StartDispatchFrames")
 	for i := 0; i < 3; i++ {
 		c.conns = append(c.conns, c.w.newConn())
 		c.joined = append(c.joined, false)
